@@ -76,7 +76,39 @@ Definition enc_npci (h : npci) : res (list N) :=
 Definition enc_npdu (h : npci) (payload : list N) : res (list N) :=
   do hd <- enc_npci h; Ok (hd ++ payload).
 
-(* npdu.py:143-204.  Result: (raw control octet as stored in npduControl, fields, remaining octets). *)
+(* npdu.py:143-204, cut at the comments of the source into one reader per optional field.
+   Every reader returns (value, remaining octets). *)
+Definition dec_opt {A} (present : bool) (f : list N -> res (A * list N)) (bs : list N)
+  : res (option A * list N) :=
+  if present then do (x, r) <- f bs; Ok (Some x, r) else Ok (None, bs).
+
+(* npdu.py:168-177; RemoteStation/RemoteBroadcast constructors cannot refuse here: dnet <> 0xFFFF
+   and dnet < 65536 for octet input *)
+Definition dec_dadr (bs : list N) : res (addr * list N) :=
+  do (dnet, q1) <- get_short bs;
+  do (dlen, q2) <- get q1;
+  do (mac, q3) <- get_data dlen q2;
+  Ok (if dnet =? 0xFFFF then GBroadcast
+      else if dlen =? 0 then RBroadcast dnet
+      else RStation dnet mac, q3).
+
+(* npdu.py:181-190 *)
+Definition dec_sadr (bs : list N) : res (addr * list N) :=
+  do (snet, q1) <- get_short bs;
+  do (slen, q2) <- get q1;
+  do (mac, q3) <- get_data slen q2;
+  if snet =? 0xFFFF then Err DecodingError
+  else if slen =? 0 then Err DecodingError
+  else Ok (RStation snet mac, q3).
+
+(* npdu.py:198-201: message type and, for 0x80..0xFF, the vendor id *)
+Definition dec_mt (bs : list N) : res ((N * option N) * list N) :=
+  do (t, q1) <- get bs;
+  if is_vendor_type t then
+    do (vd, q2) <- get_short q1; Ok ((t, Some vd), q2)
+  else Ok ((t, None), q1).
+
+(* Result: (raw control octet as stored in npduControl, fields, remaining octets). *)
 Definition dec_npci (bs : list N) : res (N * npci * list N) :=
   if lenN bs <? 2 then Err DecodingError else
   do (v, r1) <- get bs;
@@ -87,34 +119,12 @@ Definition dec_npci (bs : list N) : res (N * npci * list N) :=
   let sp := negb (N.land c 0x08 =? 0) in
   let e := negb (N.land c 0x04 =? 0) in
   let p := N.land c 0x03 in
-  do (d, r3) <-
-    (if dp then
-       do (dnet, q1) <- get_short r2;
-       do (dlen, q2) <- get q1;
-       do (mac, q3) <- get_data dlen q2;
-       Ok (Some (if dnet =? 0xFFFF then GBroadcast
-                 else if dlen =? 0 then RBroadcast dnet
-                 else RStation dnet mac), q3)
-     else Ok (None, r2));
-  do (s, r4) <-
-    (if sp then
-       do (snet, q1) <- get_short r3;
-       do (slen, q2) <- get q1;
-       do (mac, q3) <- get_data slen q2;
-       if snet =? 0xFFFF then Err DecodingError
-       else if slen =? 0 then Err DecodingError
-       else Ok (Some (RStation snet mac), q3)
-     else Ok (None, r3));
-  do (hp, r5) <-
-    (if dp then do (x, q) <- get r4; Ok (Some x, q) else Ok (None, r4));
-  do (mv, r6) <-
-    (if nlm then
-       do (t, q1) <- get r5;
-       if is_vendor_type t then
-         do (vd, q2) <- get_short q1; Ok ((Some t, Some vd), q2)
-       else Ok ((Some t, None), q1)
-     else Ok ((None, None), r5));
-  Ok (c, mkNpci v e p d s hp (fst mv) (snd mv), r6).
+  do (d, r3) <- dec_opt dp dec_dadr r2;
+  do (s, r4) <- dec_opt sp dec_sadr r3;
+  do (hp, r5) <- dec_opt dp get r4;
+  do (mv, r6) <- dec_opt nlm dec_mt r5;
+  Ok (c, mkNpci v e p d s hp (option_map fst mv)
+                (match mv with Some (_, vd) => vd | None => None end), r6).
 
 (* NPDU.decode: the rest of the buffer is the payload *)
 Definition dec_npdu := dec_npci.
